@@ -252,7 +252,7 @@ class SymPattern:
     def _sym(self, string):
         if isinstance(string, SStr):
             if string.has_atom():
-                raise EngineError("regular expression applied to a rendered symbolic value")
+                string._noatom("regular expression")     # renders the atoms when a harness enabled that, refuses otherwise
             return self.force_symbolic or not string.concrete()
         return self.force_symbolic
 
